@@ -41,7 +41,8 @@ class Check:
         self.coverage = {}
         self.assumptions = []
         self.samples = []
-        self.known = [k for k in load_known() if k["property"] == pid]
+        self.known = [k for k in load_known()
+                      if pid == k["property"] or pid in k.get("also_properties", [])]
         self.nreplay = 0
         os.makedirs(REPLAY_DIR, exist_ok=True)
         os.makedirs(EVIDENCE_DIR, exist_ok=True)
